@@ -1,1 +1,312 @@
-/-! Property theorems for C05 (stub: not built yet). -/
+import UsualProofs.C05.MD
+import UsualProofs.C05.Hmac
+import UsualProofs.C05.Sponge
+import UsualProofs.C05.Sha3
+import UsualProofs.C05.ChaCha
+import Usual.C05.Digests
+/-! Property theorems for C05 — cryptographic primitives equal their standards for every
+    input and every chunking.
+
+    The streaming code of usual/crypto is modelled in `Usual.C05.*` (the functions the
+    correspondence driver runs); the standards are the one-shot definitions `MD.mdSpec`
+    (RFC 1321 / FIPS 180-4: pad, cut into blocks, fold the compression function),
+    `Keccak.sponge` (FIPS 202), `Hmac.hmacSpec` (RFC 2104) and `ChaCha.streamBytes`.
+    All theorems are generic in the compression function / permutation / block function, so
+    each covers every digest of its family at once.
+
+    NOT carried by theorems (see evidence `partial`):
+    * that `md5Compress`, `sha1Compress`, `sha256Compress`, `sha512Compress`, `Keccak.fBytes`,
+      `ChaCha.block` are the functions printed in the standards — transcription, pinned by the
+      standards' vectors (UsualProofs/C05/Vectors.lean) and the hashlib cross-check;
+    * that the three C code paths of keccak_f compute the same permutation — correspondence. -/
+namespace UsualProps.C05
+open Usual.C05
+
+/-! ### MD5, SHA-1, SHA-224/256, SHA-384/512 -/
+
+/-- Feeding a message to `*_update` in ANY partition into chunks and calling `*_final` yields the
+    digest the standard defines for the whole message.  Generic in the digest (block size,
+    length-field size and endianness, initial value, compression function); the message must be
+    shorter than 2^61 bytes (the code keeps a 64-bit bit count, as the standards do for
+    MD5/SHA-1/SHA-256). -/
+theorem md_chunking {σ : Type} (A : MD.Alg σ) (hL : 8 ≤ A.lenBytes) (hLB : A.lenBytes < A.B)
+    (chunks : List (List UInt8)) (hlen : 8 * chunks.flatten.length < 2 ^ 64) :
+    MD.final A (chunks.foldl (MD.update A) (MD.reset A)) = MD.mdSpec A chunks.flatten :=
+  MD.final_foldl_update A hL hLB chunks hlen
+
+example : MD.final MD.sha256 ([[1, 2], [], [3]].foldl (MD.update MD.sha256) (MD.reset MD.sha256))
+    = MD.mdSpec MD.sha256 [1, 2, 3] :=
+  md_chunking MD.sha256 (by decide) (by decide) [[1, 2], [], [3]] (by decide)
+
+/-- the six digests of the library satisfy the side conditions of `md_chunking` -/
+theorem md_instances :
+    (8 ≤ MD.md5.lenBytes ∧ MD.md5.lenBytes < MD.md5.B) ∧ (8 ≤ MD.sha1.lenBytes ∧ MD.sha1.lenBytes < MD.sha1.B) ∧
+    (8 ≤ MD.sha224.lenBytes ∧ MD.sha224.lenBytes < MD.sha224.B) ∧
+    (8 ≤ MD.sha256.lenBytes ∧ MD.sha256.lenBytes < MD.sha256.B) ∧
+    (8 ≤ MD.sha384.lenBytes ∧ MD.sha384.lenBytes < MD.sha384.B) ∧
+    (8 ≤ MD.sha512.lenBytes ∧ MD.sha512.lenBytes < MD.sha512.B) := by decide
+
+example : MD.md5.B = 64 ∧ MD.sha512.B = 128 ∧ MD.sha512.lenBytes = 16 := by decide
+
+/-- A context that is reset behaves as a fresh one, whatever it held before (including a
+    finalised or half-filled one): any chunking after the reset gives the standard's digest. -/
+theorem md_reset_fresh {σ : Type} (A : MD.Alg σ) (hL : 8 ≤ A.lenBytes) (hLB : A.lenBytes < A.B)
+    (old : MD.Ctx σ) (chunks : List (List UInt8)) (hlen : 8 * chunks.flatten.length < 2 ^ 64) :
+    MD.final A (chunks.foldl (MD.update A) (MD.resetCtx A old)) = MD.mdSpec A chunks.flatten :=
+  MD.final_foldl_update A hL hLB chunks hlen
+
+example : MD.final MD.md5 ([[7], [8, 9]].foldl (MD.update MD.md5)
+      (MD.resetCtx MD.md5 (MD.update MD.md5 (MD.reset MD.md5) [1, 2, 3])))
+    = MD.mdSpec MD.md5 [7, 8, 9] :=
+  md_reset_fresh MD.md5 (by decide) (by decide) _ [[7], [8, 9]] (by decide)
+
+/-- The padding rule of the C code (`pad_len = B - L - pos; if (pad_len <= 0) pad_len += B`)
+    produces exactly the standard's padding: 0x80, then the least number `k` of zero bytes with
+    `len + 1 + k + L ≡ 0 (mod B)`. -/
+theorem md_padding_rule {σ : Type} (A : MD.Alg σ) (hL : 0 < A.lenBytes) (hLB : A.lenBytes < A.B) (len : Nat) :
+    MD.padLen A (len % A.B) = MD.padZeros A len + 1 ∧
+    (len + 1 + MD.padZeros A len + A.lenBytes) % A.B = 0 ∧ MD.padZeros A len < A.B :=
+  ⟨MD.padLen_eq A hL hLB len, MD.padZeros_spec A (by omega) len⟩
+
+example : MD.padLen MD.sha256 (55 % 64) = 1 ∧ MD.padLen MD.sha256 (56 % 64) = 64 ∧ MD.padLen MD.sha512 (112 % 128) = 128 := by
+  decide
+
+/-! ### HMAC -/
+
+/-- HMAC over ANY digest whose streaming interface computes a function `H` of the concatenated
+    input, for ANY key length (keys longer than a block are hashed first) and ANY chunking of the
+    message: `hmac_new; hmac_update*; hmac_final` = RFC 2104. -/
+theorem hmac_chunking {δ : Type} (D : Hmac.Digest δ) (H : Hmac.Bytes → Hmac.Bytes) (bound : Nat)
+    (hD : Hmac.Lawful D H bound) (key : Hmac.Bytes) (chunks : List Hmac.Bytes) (hk : key.length < bound)
+    (hm : D.blockLen + chunks.flatten.length < bound) (hr : ∀ m, D.blockLen + (H m).length < bound) :
+    Hmac.final D (chunks.foldl (Hmac.update D) (Hmac.new D key)) = Hmac.hmacSpec H D.blockLen key chunks.flatten :=
+  Hmac.final_foldl D H bound hD key chunks hk hm hr
+
+/-- the MD-family `DigestInfo`s are lawful: instance of `hmac_chunking` for MD5 … SHA-512 -/
+theorem hmac_md_chunking {σ : Type} (A : MD.Alg σ) (rlen : Nat) (hL : 8 ≤ A.lenBytes) (hLB : A.lenBytes < A.B)
+    (hout : ∀ s, A.B + (A.out s).length < 2 ^ 61)
+    (key : List UInt8) (chunks : List (List UInt8)) (hk : key.length < 2 ^ 61)
+    (hm : A.B + chunks.flatten.length < 2 ^ 61) :
+    Hmac.final (mdDigest A rlen) (chunks.foldl (Hmac.update (mdDigest A rlen)) (Hmac.new (mdDigest A rlen) key))
+      = Hmac.hmacSpec (MD.mdSpec A) A.B key chunks.flatten := by
+  apply hmac_chunking (mdDigest A rlen) (MD.mdSpec A) (2 ^ 61) _ key chunks hk hm
+  · intro m; exact hout _
+  · intro cs hcs
+    exact md_chunking A hL hLB cs (by omega)
+
+example (key msg1 msg2 : List UInt8) (hk : key.length < 1000) (h1 : msg1.length < 1000) (h2 : msg2.length < 1000) :
+    Hmac.final (mdDigest MD.sha256 32)
+        ([msg1, msg2].foldl (Hmac.update (mdDigest MD.sha256 32)) (Hmac.new (mdDigest MD.sha256 32) key))
+      = Hmac.hmacSpec (MD.mdSpec MD.sha256) MD.sha256.B key (msg1 ++ msg2) := by
+  have := hmac_md_chunking MD.sha256 32 (by decide) (by decide)
+    (by intro s; show 64 + (List.take 32 _).length < 2 ^ 61; rw [List.length_take]; omega)
+    key [msg1, msg2] (by omega) (by show 64 + _ < _; simp; omega)
+  simpa using this
+
+/-- `hmac_reset` returns any used context to the state `hmac_new` produced -/
+theorem hmac_reset_fresh {δ : Type} (D : Hmac.Digest δ) (key : Hmac.Bytes) (chunks : List Hmac.Bytes) :
+    Hmac.reset D (chunks.foldl (Hmac.update D) (Hmac.new D key)) = Hmac.new D key :=
+  Hmac.reset_foldl D key chunks
+
+example : Hmac.reset (mdDigest MD.sha1 20) ([[1], [2, 3]].foldl (Hmac.update (mdDigest MD.sha1 20))
+    (Hmac.new (mdDigest MD.sha1 20) [9, 9])) = Hmac.new (mdDigest MD.sha1 20) [9, 9] :=
+  hmac_reset_fresh _ _ _
+
+/-! ### Keccak sponge (generic in the permutation `f`) -/
+
+/-- `add_bytes` (partial lane / whole lanes / partial lane) and `extract_bytes` (same three phases)
+    are plain byte-window operations on the state, for every offset and length. -/
+theorem sponge_window_ops (st p : Keccak.Bytes) (ofs count : Nat) :
+    Keccak.addBytes st p ofs = Keccak.xorAt st ofs p ∧
+    Keccak.extractBytes st ofs count = (st.drop ofs).take count :=
+  ⟨Keccak.addBytes_eq st p ofs, Keccak.extractBytes_eq st ofs count⟩
+
+example : Keccak.addBytes (List.replicate 200 0) [1, 2, 3, 4, 5, 6, 7, 8, 9, 10, 11] 5
+    = Keccak.xorAt (List.replicate 200 0) 5 [1, 2, 3, 4, 5, 6, 7, 8, 9, 10, 11] :=
+  (sponge_window_ops _ _ 5 0).1
+
+/-- `keccak_absorb` over any partition of the data = one call on the concatenation -/
+theorem sponge_absorb_chunking (f : Keccak.Bytes → Keccak.Bytes) (c : Keccak.Ctx) (h : c.pos < c.rbytes)
+    (chunks : List Keccak.Bytes) :
+    chunks.foldl (Keccak.absorb f) c = Keccak.absorb f c chunks.flatten :=
+  Keccak.foldl_absorb f chunks c h
+
+example (f : Keccak.Bytes → Keccak.Bytes) :
+    [[1, 2], [3]].foldl (Keccak.absorb f) { st := List.replicate 200 0, pos := 5, rbytes := 136 }
+      = Keccak.absorb f { st := List.replicate 200 0, pos := 5, rbytes := 136 } [1, 2, 3] :=
+  sponge_absorb_chunking f _ (by decide) [[1, 2], [3]]
+
+/-- `keccak_squeeze` of `n₁`, `n₂`, … bytes in turn = one squeeze of `n₁ + n₂ + …` bytes
+    (same bytes, same final context) -/
+theorem sponge_squeeze_chunking (f : Keccak.Bytes → Keccak.Bytes) (c : Keccak.Ctx) (h : c.pos < c.rbytes)
+    (ns : List Nat) :
+    Keccak.squeezeMany f c ns = Keccak.squeeze f c ns.sum :=
+  Keccak.squeezeMany_eq f ns c h
+
+example (f : Keccak.Bytes → Keccak.Bytes) :
+    Keccak.squeezeMany f { st := List.replicate 200 7, pos := 0, rbytes := 72 } [10, 100, 1]
+      = Keccak.squeeze f { st := List.replicate 200 7, pos := 0, rbytes := 72 } 111 :=
+  sponge_squeeze_chunking f _ (by decide) [10, 100, 1]
+
+/-- `keccak_encrypt`, `keccak_decrypt`, `keccak_squeeze_xor` are insensitive to the partition -/
+theorem sponge_duplex_chunking (f : Keccak.Bytes → Keccak.Bytes) (c : Keccak.Ctx) (h : c.pos < c.rbytes)
+    (chunks : List Keccak.Bytes) :
+    Keccak.runMany (Keccak.encrypt f) c chunks = Keccak.encrypt f c chunks.flatten ∧
+    Keccak.runMany (Keccak.decrypt f) c chunks = Keccak.decrypt f c chunks.flatten ∧
+    Keccak.runMany (Keccak.squeezeXor f) c chunks = Keccak.squeezeXor f c chunks.flatten :=
+  ⟨Keccak.runMany_encrypt f c chunks h, Keccak.runMany_decrypt f c chunks h, Keccak.runMany_squeezeXor f c chunks h⟩
+
+example (f : Keccak.Bytes → Keccak.Bytes) :
+    Keccak.runMany (Keccak.encrypt f) { st := List.replicate 200 0, pos := 3, rbytes := 8 } [[1], [2, 3, 4, 5, 6, 7]]
+      = Keccak.encrypt f { st := List.replicate 200 0, pos := 3, rbytes := 8 } [1, 2, 3, 4, 5, 6, 7] :=
+  (sponge_duplex_chunking f _ (by decide) _).1
+
+/-- `keccak_decrypt` inverts `keccak_encrypt`: starting from equal contexts, decrypting the
+    ciphertext — in ANY partition `cs`, independent of the partition `ms` used for encryption —
+    returns the plaintext and leaves the same context. -/
+theorem decrypt_encrypt (f : Keccak.Bytes → Keccak.Bytes) (hf : ∀ s : Keccak.Bytes, s.length = 200 → (f s).length = 200)
+    (c : Keccak.Ctx) (hpos : c.pos < c.rbytes) (hst : c.st.length = 200) (hr : c.rbytes ≤ 200)
+    (ms cs : List Keccak.Bytes) (hcs : cs.flatten = (Keccak.runMany (Keccak.encrypt f) c ms).1) :
+    Keccak.runMany (Keccak.decrypt f) c cs = (ms.flatten, (Keccak.runMany (Keccak.encrypt f) c ms).2) := by
+  rw [Keccak.runMany_decrypt f c cs hpos, hcs, Keccak.runMany_encrypt f c ms hpos,
+      Keccak.decrypt_eq f c _ hpos, Keccak.encrypt_eq f c _ hpos]
+  exact Keccak.steps_dec_enc f hf ms.flatten c hpos ⟨hst, hr⟩
+
+example : Keccak.runMany (Keccak.decrypt id) { st := List.replicate 200 1, pos := 2, rbytes := 4 }
+      [(Keccak.runMany (Keccak.encrypt id) { st := List.replicate 200 1, pos := 2, rbytes := 4 } [[5, 6], [7]]).1]
+    = ([5, 6, 7], (Keccak.runMany (Keccak.encrypt id) { st := List.replicate 200 1, pos := 2, rbytes := 4 } [[5, 6], [7]]).2) :=
+  decrypt_encrypt id (fun _ h => h) _ (by decide) (List.length_replicate ..) (by decide) [[5, 6], [7]] _
+    (by rw [List.flatten_cons, List.flatten_nil, List.append_nil])
+
+/-- SHA3-224/256/384/512 and SHAKE128/256 through `sha3_*_reset; sha3_update*; sha3_final`
+    = `SPONGE[f, pad10*1, r](M ‖ suffix, d)` of FIPS 202, for any chunking of the message; stated
+    for every capacity `keccak_init` accepts and every pad byte. -/
+theorem sha3_eq_spec (f : Keccak.Bytes → Keccak.Bytes) (cap ob : Nat) (dom : UInt8)
+    (h8 : cap % 8 = 0) (hlo : 8 ≤ cap) (hhi : cap ≤ 1592) (chunks : List Keccak.Bytes) :
+    (Sha3.final f (chunks.foldl (Sha3.update f) (Sha3.reset (cap, ob, dom)))).1
+      = Keccak.sponge f ((1600 - cap) / 8) dom chunks.flatten ob :=
+  Sha3.final_eq_sponge f cap ob dom h8 hlo hhi chunks
+
+example (f : Keccak.Bytes → Keccak.Bytes) (a b : Keccak.Bytes) :
+    (Sha3.final f ([a, b].foldl (Sha3.update f) (Sha3.reset Usual.Gen.C05.sha3_256Params))).1
+      = Keccak.sponge f 136 0x06 (a ++ b) 32 := by
+  have := sha3_eq_spec f 512 32 0x06 (by decide) (by decide) (by decide) [a, b]
+  simpa [Usual.Gen.C05.sha3_256Params, Usual.Gen.C05.padSha3] using this
+
+/-- the six parameter sets found in sha3.h / sha3.c are accepted by `keccak_init` -/
+theorem sha3_instances :
+    ∀ p ∈ [Usual.Gen.C05.sha3_224Params, Usual.Gen.C05.sha3_256Params, Usual.Gen.C05.sha3_384Params,
+           Usual.Gen.C05.sha3_512Params, Usual.Gen.C05.shake128Params, Usual.Gen.C05.shake256Params],
+      p.1 % 8 = 0 ∧ 8 ≤ p.1 ∧ p.1 ≤ 1592 := by decide
+
+example : Usual.Gen.C05.shake128Params = (256, 32, 0x1f) := by decide
+
+/-- SHAKE (and any of the six) at ANY output length and ANY sequence of `shake_extract` calls:
+    the concatenated output is the sponge output of the total length. -/
+theorem shake_any_length (f : Keccak.Bytes → Keccak.Bytes) (cap ob : Nat) (dom : UInt8)
+    (h8 : cap % 8 = 0) (hlo : 8 ≤ cap) (hhi : cap ≤ 1592) (chunks : List Keccak.Bytes) (ns : List Nat) :
+    (Sha3.extractMany f (chunks.foldl (Sha3.update f) (Sha3.reset (cap, ob, dom))) ns).1
+      = Keccak.sponge f ((1600 - cap) / 8) dom chunks.flatten ns.sum :=
+  Sha3.extractMany_eq_sponge f cap ob dom h8 hlo hhi chunks ns
+
+example (f : Keccak.Bytes → Keccak.Bytes) (m : Keccak.Bytes) :
+    (Sha3.extractMany f ([m].foldl (Sha3.update f) (Sha3.reset Usual.Gen.C05.shake128Params)) [3, 500, 0, 9]).1
+      = Keccak.sponge f 168 0x1f m 512 := by
+  have := shake_any_length f 256 32 0x1f (by decide) (by decide) (by decide) [m] [3, 500, 0, 9]
+  simpa [Usual.Gen.C05.shake128Params, Usual.Gen.C05.padShake] using this
+
+/-- HMAC over the SHA-3 `DigestInfo`s: instance of `hmac_chunking` -/
+theorem hmac_sha3_chunking (f : Keccak.Bytes → Keccak.Bytes) (cap ob : Nat) (dom : UInt8)
+    (h8 : cap % 8 = 0) (hlo : 8 ≤ cap) (hhi : cap ≤ 1592) (key : List UInt8) (chunks : List (List UInt8)) :
+    Hmac.final (sha3Digest f (cap, ob, dom))
+        (chunks.foldl (Hmac.update (sha3Digest f (cap, ob, dom))) (Hmac.new (sha3Digest f (cap, ob, dom)) key))
+      = Hmac.hmacSpec (fun m => Keccak.sponge f ((1600 - cap) / 8) dom m ob) ((1600 - cap) / 8) key chunks.flatten := by
+  have e : (sha3Digest f (cap, ob, dom)).blockLen = (1600 - cap) / 8 := rfl
+  have h := hmac_chunking (sha3Digest f (cap, ob, dom))
+    (fun m => Keccak.sponge f ((1600 - cap) / 8) dom m ob)
+    (key.length + (1600 - cap) / 8 + chunks.flatten.length + ob + 1)
+    (fun cs _ => sha3_eq_spec f cap ob dom h8 hlo hhi cs) key chunks (by omega) (by rw [e]; omega)
+    (by
+      intro m
+      have := Keccak.sponge_length_le f ((1600 - cap) / 8) dom m ob
+      rw [e]; omega)
+  rw [e] at h
+  exact h
+
+example (f : Keccak.Bytes → Keccak.Bytes) (key a b : List UInt8) :
+    Hmac.final (sha3Digest f (512, 32, 0x06))
+        ([a, b].foldl (Hmac.update (sha3Digest f (512, 32, 0x06))) (Hmac.new (sha3Digest f (512, 32, 0x06)) key))
+      = Hmac.hmacSpec (fun m => Keccak.sponge f 136 0x06 m 32) 136 key (a ++ b) := by
+  have := hmac_sha3_chunking f 512 32 0x06 (by decide) (by decide) (by decide) key [a, b]
+  simpa using this
+
+/-! ### ChaCha20 (generic in the block function) -/
+
+/-- `chacha_mix` advances the 64-bit block counter by one with carry from word 12 into word 13
+    (wrapping at 2^64) and outputs the block of the counter value it found. -/
+theorem chacha_counter_carry (bf : ChaCha.BlockFn) (s : ChaCha.Stream) :
+    ChaCha.ctrVal (ChaCha.mix bf s).lo (ChaCha.mix bf s).hi = (ChaCha.ctrVal s.lo s.hi + 1) % 2 ^ 64 ∧
+    (ChaCha.mix bf s).out = ChaCha.blockAt bf (ChaCha.ctrVal s.lo s.hi) ∧ (ChaCha.mix bf s).pos = 0 :=
+  ⟨ChaCha.mix_ctr bf s, (ChaCha.blockAt_ctrVal bf s.lo s.hi).symm, rfl⟩
+
+example : ChaCha.ctrVal (ChaCha.mix (fun _ _ => []) { lo := 0xffffffff, hi := 7, out := [], pos := 64 }).lo
+    (ChaCha.mix (fun _ _ => []) { lo := 0xffffffff, hi := 7, out := [], pos := 64 }).hi = 8 * 2 ^ 32 := by decide
+
+/-- After `chacha_set_nonce` (pos = 64), ANY sequence of `chacha_keystream` calls delivers the
+    key stream from its beginning: the concatenated output of calls for `n₁, n₂, …` bytes is the
+    first `n₁ + n₂ + …` bytes of the stream that starts at the given 64-bit counter. -/
+theorem chacha_keystream_chunking (bf : ChaCha.BlockFn) (hbf : ∀ lo hi, (bf lo hi).length = 64)
+    (s : ChaCha.Stream) (hs : s.pos = 64) (ns : List Nat) :
+    (ChaCha.ksMany bf s ns).1 = ChaCha.streamBytes bf (ChaCha.ctrVal s.lo s.hi) 0 ns.sum :=
+  (ChaCha.ksMany_spec bf hbf _ ns s 0 (ChaCha.rel_start bf s hs)).1
+
+example : (ChaCha.ksMany (fun lo _ => List.replicate 64 lo.toUInt8) { lo := 5, hi := 0, out := [], pos := 64 } [10, 60]).1
+    = ChaCha.streamBytes (fun lo _ => List.replicate 64 lo.toUInt8) 5 0 70 :=
+  chacha_keystream_chunking _ (by intro lo hi; simp) _ rfl [10, 60]
+
+/-- `chacha_keystream_xor` (with the repair of F9) in ANY partition of the plaintext =
+    plaintext ⊕ the prefix of the key stream of the same length. -/
+theorem chacha_xor_eq_stream (bf : ChaCha.BlockFn) (hbf : ∀ lo hi, (bf lo hi).length = 64)
+    (s : ChaCha.Stream) (hs : s.pos = 64) (xs : List ChaCha.Bytes) :
+    (ChaCha.xorMany bf s xs).1
+      = ChaCha.xorBytes xs.flatten (ChaCha.streamBytes bf (ChaCha.ctrVal s.lo s.hi) 0 xs.flatten.length) :=
+  (ChaCha.xorMany_spec bf hbf _ xs s 0 (ChaCha.rel_start bf s hs)).1
+
+example : (ChaCha.xorMany (fun lo _ => (List.range 64).map (fun i => UInt8.ofNat i + lo.toUInt8))
+      { lo := 0, hi := 0, out := [], pos := 64 } [List.replicate 10 0, List.replicate 30 0]).1
+    = ChaCha.xorBytes (List.replicate 40 0)
+        (ChaCha.streamBytes (fun lo _ => (List.range 64).map (fun i => UInt8.ofNat i + lo.toUInt8)) 0 0 40) := by
+  have := chacha_xor_eq_stream (fun lo _ => (List.range 64).map (fun i => UInt8.ofNat i + lo.toUInt8))
+    (by intro lo hi; simp) { lo := 0, hi := 0, out := [], pos := 64 } rfl [List.replicate 10 0, List.replicate 30 0]
+  simpa [ChaCha.ctrVal] using this
+
+/-- mixed sequences: key stream position is shared between `chacha_keystream` and
+    `chacha_keystream_xor` (the invariant `Rel` is what both preserve) -/
+theorem chacha_mixed_calls (bf : ChaCha.BlockFn) (hbf : ∀ lo hi, (bf lo hi).length = 64) (c0 : Nat)
+    (s : ChaCha.Stream) (o n : Nat) (src : ChaCha.Bytes) (h : ChaCha.Rel bf c0 s o) :
+    (ChaCha.keystream bf s n).1 = ChaCha.streamBytes bf c0 o n ∧
+    (ChaCha.keystreamXor bf (ChaCha.keystream bf s n).2 src).1
+      = ChaCha.xorBytes src (ChaCha.streamBytes bf c0 (o + n) src.length) := by
+  obtain ⟨a1, a2⟩ := ChaCha.keystreamF_spec bf hbf c0 (n + 1) s o n h (by omega)
+  exact ⟨a1, (ChaCha.keystreamXorF_spec bf hbf c0 (src.length + 1) _ (o + n) src a2 (by omega)).1⟩
+
+example : ChaCha.Rel (fun _ _ => List.replicate 64 0) 3 { lo := 3, hi := 0, out := [], pos := 64 } 0 :=
+  ChaCha.rel_start _ _ rfl
+
+/-- F9, the loop as it stood in the pinned tree (`dst[i] = src[i] ^ ks[i]`, ignoring `ctx->pos`):
+    a 10 + 30 byte split differs from the one-shot call already for a block function whose output
+    is 0,1,2,…,63.  (The repaired loop is the subject of `chacha_xor_eq_stream`.) -/
+theorem chacha_xor_old_counterexample :
+    ¬ ∀ (bf : ChaCha.BlockFn) (s : ChaCha.Stream) (a b : ChaCha.Bytes), s.pos = 64 →
+        (ChaCha.keystreamXorOldF bf 100 s a).1 ++ (ChaCha.keystreamXorOldF bf 100 (ChaCha.keystreamXorOldF bf 100 s a).2 b).1
+          = (ChaCha.keystreamXorOldF bf 100 s (a ++ b)).1 := by
+  intro h
+  have := h (fun _ _ => (List.range 64).map UInt8.ofNat) { lo := 0, hi := 0, out := [], pos := 64 }
+    (List.replicate 10 0) (List.replicate 30 0) rfl
+  revert this
+  decide
+
+example : (ChaCha.keystreamXorOldF (fun _ _ => (List.range 64).map UInt8.ofNat) 100
+    { lo := 0, hi := 0, out := (List.range 64).map UInt8.ofNat, pos := 10 } [0, 0]).1 = [0, 1] := by decide
+
+end UsualProps.C05
